@@ -30,6 +30,33 @@ CLAIMS = {
          "small MaxId and empty sends on spec/SD.tla x Mon_C08 (ids 1..MaxId, never 0, flag until the first wrap, empty send "
          "is a no-op), catching two spec mutants; the monitor judges real send_sd traffic crossing each destination's wrap at "
          "different moments and real SimpleEventgroup notification rounds", "DESIGN.md §7 C08", TECH, TRUST),
+ "C06": ("model_checking",
+         "TLC checks the subscription store of spec/SD.tla against Mon_C06 (alternation per subscription identity, ghost "
+         "liveness computed from the inputs: accept -> TTL / StopSubscribe / detected reboot / stop, reboot applied before "
+         "the entries of the same message, rejected subscriptions never recorded) for all schedules within bounds and catches "
+         "the as-shipped deferred reboot fan-out; the monitor judges real ServiceInstance histories; SDTrace.tla validates them",
+         "DESIGN.md §7 C06", TECH, TRUST),
+ "C10": ("model_checking",
+         "TLC checks the offer task of spec/SD.tla (exact asyncio hop structure: create_task, sleep, cancel at every point) "
+         "against the timeline acceptor Mon_C10 for every stop / restart / find position in four timing configurations and "
+         "catches the as-shipped deviations D4, D5, D6; the monitor judges real announcer histories in six timing "
+         "configurations plus a probe of the stop-twice / SimpleService helper calls; traces validated against SDTrace.tla",
+         "DESIGN.md §7 C10", TECH, TRUST),
+ "C11": ("model_checking",
+         "TLC checks handle_subscribe of spec/SD.tla against Mon_C11 (exactly one Ack/Nack per unicast Subscribe, echoing ids, "
+         "TTL by an independent statement of matching / running state / listener decision; nothing for multicast or "
+         "StopSubscribe) and catches a spec mutant; the monitor judges real histories over three instances incl. wildcard ids",
+         "DESIGN.md §7 C11", TECH, TRUST),
+ "C12": ("model_checking",
+         "TLC checks FindService handling of spec/SD.tla against Mon_C12 (must / may / must-not answer by lifecycle instant, "
+         "unicast to the requester only, delay window by channel) for finds at every instant and catches the as-shipped "
+         "stopped-instance answer; the monitor judges real histories over three instances x nine filters (every wildcard "
+         "combination) x six timing configurations", "DESIGN.md §7 C12", TECH, TRUST),
+ "C15": ("model_checking",
+         "TLC checks SendCollector / queue_send / send_sd of spec/SD.tla against Mon_C15 (exactly once, per-destination "
+         "order, deadline = collection timeout, no mixing of destinations, own message when the timeout is zero) for all "
+         "schedules incl. requests at the closing instant of a window and during stop, and catches a spec mutant; the monitor "
+         "judges real queue_send histories with bursts up to 40 entries", "DESIGN.md §7 C15", TECH, TRUST),
 }
 claimed = sorted(CLAIMS)
 m = {"version": 1, "setup_cmd": "./setup.sh",
